@@ -1,0 +1,32 @@
+//go:build verif
+
+// Contracts for the verification machinery in /verif (comment-only; no code).
+
+package p2p
+
+//@ spec func sumlen(l seq, n int) int = n <= 0 ? 0 : sumlen(l, n-1) + l[n-1]
+//@
+//@ func VecSize
+//@   ensures ret == sumlen(lens(v), len(v))
+//@   ensures ret >= 0
+//@   loop 0:
+//@     invariant 0 <= i && i <= len(v)
+//@     invariant total == sumlen(lens(v), i)
+//@     invariant total >= 0
+//@
+//@ func VecBytes
+//@   modifies all(out)
+//@   ensures len(ret) == len(out) + sumlen(lens(v), len(v))
+//@   ensures forall j :: 0 <= j && j < len(out) ==> ret[j] == old(out[j])
+//@   ensures len(ret) == len(out) ==> ret == out
+//@   ensures arr(ret) == arr(out) || fresh(ret)
+//@   ensures arr(ret) == arr(out) ==> off(ret) == off(out) && (forall j :: j < off(out) || j >= off(out) + cap(out) ==> elemAt(ret, j) == old(elemAt(out, j)))
+//@   loop 0:
+//@     invariant 0 <= i && i <= len(v)
+//@     invariant len(out) == len(old(out)) + sumlen(lens(v), i)
+//@     invariant len(out) >= len(old(out))
+//@     invariant forall j :: 0 <= j && j < len(old(out)) ==> out[j] == old(out[j])
+//@     invariant i == 0 ==> out == old(out)
+//@     invariant arr(out) == arr(old(out)) || fresh(out)
+//@     invariant arr(out) == arr(old(out)) ==> cap(out) == cap(old(out))
+//@     invariant arr(out) == arr(old(out)) ==> off(out) == off(old(out)) && len(out) <= cap(old(out)) && (forall j :: j < off(old(out)) || j >= off(old(out)) + cap(old(out)) ==> elemAt(out, j) == old(elemAt(out, j)))
